@@ -47,7 +47,7 @@ impl Method for StDev {
 		&&& self.k@ * (self.n() - 1real) == 1real
 	}
 	open spec fn rejects(parameters: PeriodType) -> bool { parameters == 0 || parameters == 1 }
-	open spec fn new_req(parameters: PeriodType, initial_value: &ValueType) -> bool { parameters < PeriodType::MAX }
+	open spec fn new_req(parameters: PeriodType, initial_value: &ValueType) -> bool { true }
 	open spec fn fresh(parameters: PeriodType, initial_value: &ValueType, s: &Self) -> bool {
 		s.window.view() =~= konst(parameters as nat, *initial_value)
 	}
